@@ -533,7 +533,7 @@ def gen_exec():
     shapes = body_shapes(objs)
     out = HEADER
     out += "(* from the clang AST of src/xalanc/XPath/XPath.cpp: the six switch statements of XPath::executeMore *)\n"
-    out += "From Coq Require Import List String.\nRequire Import XV.ExecArms.\nImport ListNotations.\nOpen Scope string_scope.\n\n"
+    out += "From Coq Require Import List String.\nRequire Import XV.ExecArms.\nImport ListNotations.\nLocal Open Scope string_scope.\n\n"
     for e in ENTRIES:
         out += "(* executeMore(%s): %d case labels *)\n" % (e, len(tables[e]))
         out += "Definition arm_%s (op : opcode) : arm :=\n  match op with\n" % e
